@@ -237,10 +237,12 @@ impl Harness for C07 {
         // p = 2, n = 3 over Σ4 (4096 X)
         lattice_jobs(&mut jobs, 2, 3, 4, 2, &both, seed);
         if t {
-            // p = 2, n = 4 over Σ4 (65 536 X), n = 5 over Σ3 (59 049 X); p = 3, n = 4 over Σ3 (531 441 X, f64)
+            // p = 1, n = 5, 6 over Σ4; p = 2, n = 4 over Σ4 (65 536 X), n = 5 over Σ3 (59 049 X); p = 3, n = 4 over Σ3 (531 441 X)
+            lattice_jobs(&mut jobs, 1, 5, 4, 1, &both, seed);
+            lattice_jobs(&mut jobs, 1, 6, 4, 3, &both, seed);
             lattice_jobs(&mut jobs, 2, 4, 4, 4, &both, seed);
             lattice_jobs(&mut jobs, 2, 5, 3, 4, &both, seed);
-            lattice_jobs(&mut jobs, 3, 4, 3, 6, &["f64"], seed);
+            lattice_jobs(&mut jobs, 3, 4, 3, 6, &both, seed);
         } else {
             // p = 2, n = 4 over Σ3 (6561 X)
             lattice_jobs(&mut jobs, 2, 4, 3, 2, &both, seed);
@@ -279,7 +281,7 @@ impl Harness for C07 {
             ],
             bounds: json!({
                 "lattice": if t {
-                    "every X over {0,1,-1,2}: p=1 n=2..4, p=2 n=3..4; every X over {0,1,-1}: p=2 n=5, p=3 n=4 (f64); every y over {0,-1,2}^n; f64 and f32"
+                    "every X over {0,1,-1,2}: p=1 n=2..6, p=2 n=3..4; every X over {0,1,-1}: p=2 n=5, p=3 n=4; every y over {0,-1,2}^n; f64 and f32"
                 } else {
                     "every X over {0,1,-1,2}: p=1 n=2..4, p=2 n=3; every X over {0,1,-1}: p=2 n=4; every y over {0,-1,2}^n; f64 and f32"
                 },
